@@ -311,7 +311,7 @@ PROPERTIES = {
             "compile-time folds that raise where the hardware would wrap (quotient overflow, division by zero, literal not representable in the vector operand) are rejections, outside the value contract",
         ],
         "canaries": [
-            {"name": "mul-width", "contract": "cohdl._core._unsigned:Unsigned.__mul__", "case": "vec", "file": "cohdl/_core/_unsigned.py", "old": "            result_width = self.width + rhs.width\n            lhs = self.to_int()\n            rhs = rhs.to_int()\n        elif isinstance(rhs, (int, Integer)):\n            result_width = 2 * self.width\n            lhs = self.to_int()\n            rhs = int(rhs)\n        else:\n            return NotImplemented\n\n        return Unsigned[result_width](lhs * rhs)\n\n    @_intrinsic\n    def __rmul__", "new": "            result_width = self.width + rhs.width + 1\n            lhs = self.to_int()\n            rhs = rhs.to_int()\n        elif isinstance(rhs, (int, Integer)):\n            result_width = 2 * self.width\n            lhs = self.to_int()\n            rhs = int(rhs)\n        else:\n            return NotImplemented\n\n        return Unsigned[result_width](lhs * rhs)\n\n    @_intrinsic\n    def __rmul__"},
+            {"name": "mul-width", "contract": "cohdl._core._unsigned:Unsigned.__mul__", "case": "vec", "file": "cohdl/_core/_unsigned.py", "old": "    def __mul__(self, rhs: Unsigned) -> Unsigned:\n        if isinstance(rhs, Unsigned):\n            result_width = self.width + rhs.width\n", "new": "    def __mul__(self, rhs: Unsigned) -> Unsigned:\n        if isinstance(rhs, Unsigned):\n            result_width = self.width + rhs.width + 1\n"},
             {"name": "signed-rshift", "contract": "cohdl._core._signed:Signed.__rshift__", "case": "int", "file": "cohdl/_core/_signed.py", "old": "        val = self.to_int() >> rhs\n        return Signed[self.width](val)", "new": "        val = abs(self.to_int()) >> rhs\n        return Signed[self.width](val)"},
         ],
     },
